@@ -5,6 +5,9 @@ import (
 	"fmt"
 	"math/rand"
 	"os"
+	"path/filepath"
+	"regexp"
+	"sort"
 	"strings"
 	"time"
 
@@ -87,6 +90,7 @@ type dbsimOutcome struct {
 	compacted int
 	flushed   int
 	partial   int
+	cycles    int
 	tablesMax int
 	trace     []simrt.Event
 	hist      []*opRec
@@ -162,14 +166,28 @@ func runDBCase(c *Ctx, dc dbCase, tape *simrt.Tape, mode string) dbsimOutcome {
 			add("close-error|"+normErr(res.CloseErr), fmt.Sprintf("session %d: Close failed: %v", si, res.CloseErr))
 			break
 		}
-		if mode == "resources" || mode == "" {
-			if len(res.Handles) > 0 || len(res.Mappings) > 0 {
-				add("leak-after-close|handles-or-mappings", fmt.Sprintf("session %d: after Close returned, still open: handles=%v mappings=%v", si, res.Handles, res.Mappings))
+		if mode == "resources" {
+			if len(res.Handles) > 0 || len(res.Mappings) > 0 || len(res.ProcFDs) > 0 || len(res.ProcMaps) > 0 {
+				add("leak-after-close|handles-or-mappings", fmt.Sprintf("session %d: after Close returned, still open: ledger handles=%v mappings=%v; /proc/self/fd=%v /proc/self/maps=%v", si, res.Handles, res.Mappings, res.ProcFDs, res.ProcMaps))
+			}
+			if len(res.TasksLeft) > 0 {
+				add("leak-after-close|goroutine", fmt.Sprintf("session %d: after Close returned, background tasks are still alive: %v", si, res.TasksLeft))
+				break
 			}
 		}
 	}
 	out.trace = r.w.Trace()
 	out.hist = r.hist
+	if mode == "lineage" {
+		cv, partial, cycles := analyzeCompactions(out.trace)
+		out.vs = append(out.vs, cv...)
+		out.partial, out.cycles = partial, cycles
+	}
+	if mode == "resources" {
+		rv, excess := analyzeResources(out.trace)
+		out.vs = append(out.vs, rv...)
+		out.tablesMax = excess
+	}
 	for _, l := range r.w.Logs {
 		if strings.HasPrefix(l, "done compacting") {
 			out.compacted++
@@ -237,6 +255,13 @@ func dbsimMain(c *Ctx) {
 		c.Count("sched-steps", out.steps)
 		c.Count("probe:compactions-completed", out.compacted)
 		c.Count("probe:flushes-completed", out.flushed)
+		c.Count("probe:compaction-selection-excluding-oldest-table", out.partial)
+		c.Count("compaction-cycles-checked", out.cycles)
+		if c.Mode == "resources" {
+			if v, ok := c.Res.Counters["max:resource-use-minus-bound"]; !ok || out.tablesMax > v {
+				c.Res.Counters["max:resource-use-minus-bound"] = out.tablesMax
+			}
+		}
 		if out.compacted > 0 || out.flushed > 1 {
 			c.Distinct(hash64("dbsim", out.pickHash, len(out.trace)))
 		}
@@ -344,4 +369,120 @@ func dbsimReplay(c *Ctx, rf *ReplayFile) []Violation {
 		out = append(out, Violation{Property: rf.Property, Sig: v.sig, Detail: v.detail})
 	}
 	return out
+}
+
+var rootTableRe = regexp.MustCompile(`^sstable_[0-9]+$`)
+
+// analyzeCompactions checks, for every compaction cycle of the trace, that the selected tables form a gap-free
+// run of the live tables in age order and that the merged table is installed in the slot of the oldest selected.
+func analyzeCompactions(trace []simrt.Event) (vs []dbViolation, partial, cycles int) {
+	live := map[string]bool{}
+	selectedBy := map[string][]string{} // compaction dir -> selected base names
+	for _, e := range trace {
+		switch e.Kind {
+		case simrt.EvMkdir:
+			if rootTableRe.MatchString(e.Path) {
+				live[e.Path] = true
+			}
+		case simrt.EvRmdir:
+			delete(live, e.Path)
+		case simrt.EvRename:
+			delete(live, e.Path)
+			if rootTableRe.MatchString(e.Path2) {
+				live[e.Path2] = true
+			}
+			if sel, ok := selectedBy[e.Path]; ok && len(sel) > 0 {
+				if e.Path2 != sel[0] {
+					vs = append(vs, dbViolation{"compaction|replacement-slot-not-oldest", fmt.Sprintf("merged table %s was installed as %s, the oldest selected table is %s (selected %v)", e.Path, e.Path2, sel[0], sel)})
+				}
+			}
+		case simrt.EvLog:
+			if !strings.HasPrefix(e.Note, "starting compaction of") {
+				continue
+			}
+			// "starting compaction of %d files in %v with %v"
+			i := strings.Index(e.Note, " in ")
+			j := strings.Index(e.Note, " with ")
+			if i < 0 || j < 0 {
+				continue
+			}
+			cdir := filepath.Base(strings.TrimSpace(e.Note[i+4 : j]))
+			var sel []string
+			for _, p := range strings.Split(strings.TrimSpace(e.Note[j+6:]), ",") {
+				sel = append(sel, filepath.Base(strings.TrimSpace(p)))
+			}
+			sort.Strings(sel)
+			selectedBy[cdir] = sel
+			cycles++
+			var all []string
+			for t := range live {
+				all = append(all, t)
+			}
+			sort.Strings(all)
+			start := -1
+			for k, t := range all {
+				if t == sel[0] {
+					start = k
+				}
+			}
+			ok := start >= 0 && start+len(sel) <= len(all)
+			if ok {
+				for k := range sel {
+					if all[start+k] != sel[k] {
+						ok = false
+					}
+				}
+			}
+			if !ok {
+				vs = append(vs, dbViolation{"compaction|selection-not-a-gap-free-run", fmt.Sprintf("compaction selected %v, live tables in age order are %v", sel, all)})
+			} else if start > 0 {
+				partial++
+			}
+		}
+	}
+	return
+}
+
+// analyzeResources replays open/close and mmap/munmap events and checks that descriptors plus mappings stay
+// within 3 x (table folders on disk) + 8 at every instant (loose constants: only growth with the number of
+// flush / compaction cycles can cross them).
+func analyzeResources(trace []simrt.Event) (vs []dbViolation, maxExcess int) {
+	dirs := map[string]bool{}
+	handles, maps := 0, 0
+	maxExcess = -1 << 30
+	for _, e := range trace {
+		switch e.Kind {
+		case simrt.EvMkdir:
+			if !strings.Contains(e.Path, "/") && strings.Contains(e.Path, "sstable") {
+				dirs[e.Path] = true
+			}
+		case simrt.EvRmdir:
+			delete(dirs, e.Path)
+		case simrt.EvRename:
+			if dirs[e.Path] {
+				delete(dirs, e.Path)
+				dirs[e.Path2] = true
+			}
+		case simrt.EvOpen:
+			handles++
+		case simrt.EvClose:
+			handles--
+		case "mmap":
+			maps++
+		case "munmap":
+			maps--
+		case simrt.EvMark:
+			if e.Note == "open" { // a new session starts with nothing open
+				handles, maps = 0, 0
+			}
+		}
+		if x := handles + maps - (3*len(dirs) + 8); x > maxExcess {
+			maxExcess = x
+			if x > 0 {
+				vs = append(vs, dbViolation{"resources|unbounded-while-open", fmt.Sprintf("at event #%d: %d descriptors + %d mappings open with %d table folders on disk (bound 3*tables+8)", e.Seq, handles, maps, len(dirs))})
+				return
+			}
+		}
+	}
+	return
 }
